@@ -9,7 +9,8 @@ Inductive cin :=
 | CMri (cur tgt : modpath)                          (* import_collector.make_relative_import *)
 | CRes (package : modpath) (level : nat) (name : modpath)   (* importlib.util.resolve_name *)
 | CStmt (pkg core cur : modpath) (is_pkg : bool) (level : nat) (parts : modpath) (loc : N)
-| CCore (file : modpath).                           (* import statements of the emitted runtime file *)
+| CCore (file : modpath)
+| CAdd (pkg m : modpath).   (* RenderContext.add_import(m, "X") from <pkg>/cur.py: absolute module finally imported *)                           (* import statements of the emitted runtime file *)
 
 Inductive cobs :=
 | OImp (o : option (nat * modpath))
@@ -29,6 +30,7 @@ Definition model (c : cin) : cobs :=
   | CRes p l n => OPath (resolve_name p l n)
   | CStmt pkg core cur is_pkg level parts loc =>
       OBool (allowed_at stdlib_names pkg core cur is_pkg (mkImp level parts))
+  | CAdd pkg m => OPath (Some (repair pkg m))
   | CCore file =>
       ORt (map (fun r => (ri_level r, ri_parts r, ri_loc r))
                (filter (fun r => modpath_eqb (ri_file r) file) runtime_imports))
